@@ -113,11 +113,12 @@ Theorem C11_float_is_std_parse :
          | None => Err (Leaf (KUnknownValue s) [] (Some (i_span i)))
          end)
     /\ (forall d sfx b, pf is64 d = Some b -> float_from_value pf is64 i (LFloat d sfx) = Ok (VFloat b))
-    /\ (forall d sfx, float_from_value pf is64 i (LInt d sfx)
-          = Err (Leaf (KUnexpectedType "int") [] (Some (i_span i)))).
+    (* ... also when the literal is written without a fraction (`x = 2`; repaired by 1f92447) *)
+    /\ (forall d sfx b, pf is64 d = Some b -> float_from_value pf is64 i (LInt d sfx) = Ok (VFloat b)).
 Proof.
   intros pf is64 i. repeat split.
   - intros s. unfold float_from_value, float_from_string. destruct (pf is64 s); reflexivity.
+  - intros d sfx b H. unfold float_from_value. rewrite H. reflexivity.
   - intros d sfx b H. unfold float_from_value. rewrite H. reflexivity.
 Qed.
 Print Assumptions C11_float_is_std_parse.
